@@ -1,5 +1,8 @@
 """C09 — loser trees: replay / initial-tournament decision tables (engine A2),
-replay path idiom, slot-0 reporting, padding range, size switch."""
+replay path by evaluation of the integer skeleton, slot-0 reporting, padding range, size switch.
+
+Verdict policy of this file: a violation is reported only on positive evidence (a concrete counterexample of an
+evaluation, a row of a decision table, a closed-world absence).  A shape that is not recognised is `Undecidable`."""
 from engine import ir, dtable, match
 from engine.ir import kids, strip_casts, const_int, ref_of
 
@@ -10,75 +13,435 @@ CLASSES = {
     "tlx::LoserTreePointerUnguarded": dict(guarded=False, base="tlx::LoserTreePointerUnguardedBase", pointer=True),
 }
 TREE = "losers_"
+NULLS = ("NullPtr", "CXXNullPtrLiteralExpr", "GNUNullExpr")
 
 
 _REF_INITS = {}     # decl id of a local reference (auto& node = losers_[pos]) -> its initialiser, per function run
+_PTR_INITS = {}     # decl id of a never-reassigned local pointer (Loser* node = &losers_[pos]) -> the pointee expression
+_BASE_PTRS = set()  # decl ids of never-reassigned local pointers to the first node (Loser* base = losers_.data())
+
+
+_ZERO = {"k": "IntegerLiteral", "val": 0, "id": -1, "ty": "int"}
+
+
+def tree_base(e):
+    """e is a pointer to the first node: losers_.data() / begin(), &losers_[0], or a never-reassigned local initialised by one"""
+    e = strip_casts(e)
+    if e is None:
+        return False
+    if tree_accessor(e, 1) == 0:
+        return True
+    if e["k"] == "UnaryOperator" and e.get("op") == "&" and kids(e):
+        p = match.index_parts(kids(e)[0])
+        return bool(p and match.this_field(p[0]) == TREE and const_int(p[1]) == 0)
+    return ref_of(e) is not None and ref_of(e) in _BASE_PTRS
 
 
 def node_index(n):
-    """index expression i if n is this->losers_[i] (also through a local reference bound to it)"""
+    """index expression i if n is this->losers_[i] (also through a local reference / constant pointer bound to it, and
+    base[i] / *base / base-> for a pointer to the first node)"""
     p = match.index_parts(n)
     if p and match.this_field(p[0]) == TREE:
         return p[1]
+    if p and tree_base(p[0]):
+        return p[1]
+    if ref_of(n) is not None and ref_of(n) in _BASE_PTRS:
+        return _ZERO                               # base->f
+    if match.deref_of(n) is not None and tree_base(match.deref_of(n)) and not (strip_casts(match.deref_of(n))["k"] == "UnaryOperator"):
+        return _ZERO                               # (*base).f
     d = ref_of(n)
     if d is not None and d in _REF_INITS:
         return node_index(_REF_INITS[d])
+    if d is not None and d in _PTR_INITS:          # node->f
+        return node_index(_PTR_INITS[d])
+    q = match.deref_of(n)                          # (*node).f
+    if q is not None and ref_of(q) in _PTR_INITS:
+        return node_index(_PTR_INITS[ref_of(q)])
+    n0 = strip_casts(n)
+    if n0 is not None and n0["k"] == "UnaryOperator" and n0.get("op") == "&" and kids(n0):
+        return node_index(kids(n0)[0])             # (&losers_[i])->f
+    if q is not None:
+        q0 = strip_casts(q)
+        if q0 is not None and q0["k"] == "UnaryOperator" and q0.get("op") == "&" and kids(q0):
+            return node_index(kids(q0)[0])         # (*&losers_[i]).f
     return None
 
 
 def bind_reference_locals(fn):
     _REF_INITS.clear()
+    _PTR_INITS.clear()
+    _BASE_PTRS.clear()
+    written = set()
     for x in fn.nodes():
-        if x["k"] == "VarDecl" and x.get("isref") and kids(x) and kids(x)[0] is not None:
-            _REF_INITS[x["did"]] = kids(x)[0]
+        if x["k"] in ("BinaryOperator", "CompoundAssignOperator", "CXXOperatorCallExpr"):
+            b = match.binop(x)
+            if b and b[0].endswith("=") and b[0] not in ("==", "!=", "<=", ">="):
+                written.add(ref_of(b[1]))
+        u = match.unop(x, ("++", "--")) if x["k"] in ("UnaryOperator", "CXXOperatorCallExpr") else None
+        if u:
+            written.add(ref_of(u[1]))
+    for x in fn.nodes():
+        if x["k"] == "VarDecl" and kids(x) and kids(x)[0] is not None:
+            if x.get("isref"):
+                _REF_INITS[x["did"]] = kids(x)[0]
+            elif (x.get("ty") or "").replace("const", "").rstrip().endswith("*") and x["did"] not in written:
+                i0 = strip_casts(kids(x)[0])
+                if tree_base(i0):
+                    _BASE_PTRS.add(x["did"])
+                elif i0 is not None and i0["k"] == "UnaryOperator" and i0.get("op") == "&":
+                    _PTR_INITS[x["did"]] = kids(i0)[0]
 
 
 def node_field(n):
-    """(index_expr, field) if n is this->losers_[i].field"""
+    """(index_expr, field) if n is this->losers_[i].field (also through a local reference bound to the field)"""
     f = match.field_of(n)
     if f:
         i = node_index(f[0])
         if i is not None:
             return i, f[1]
+    d = ref_of(n)
+    if d is not None and d in _REF_INITS:
+        return node_field(_REF_INITS[d])
+    return None
+
+
+def strip_move(e):
+    """looks through std::move / std::forward"""
+    e = strip_casts(e)
+    c = match.call_named(e, ("move", "forward"))
+    if c is not None and len(kids(c)) == 1 and not c.get("member_call"):
+        return strip_casts(kids(c)[0])
+    return e
+
+
+def is_loser_member(e):
+    e = strip_casts(e)
+    return e is not None and e["k"] == "MemberExpr" and (e.get("owner") or "").endswith("::Loser")
+
+
+def is_loser_object(e):
+    e = strip_casts(e)
+    return e is not None and (e.get("ty") or "").replace("const ", "").rstrip(" &").endswith("::Loser")
+
+
+# ----------------------------------------------------------------------------
+# evaluation of tree accesses in the integer skeleton (engine/skel.py): REPLAY-PATH and PADDING
+# ----------------------------------------------------------------------------
+
+def _key_slot(key):
+    """slot of a skeleton lvalue key that lies in the tree: losers_[i], or address i (losers_.data() is address 0)"""
+    if isinstance(key, tuple) and len(key) == 3 and key[0] == "elem" and key[1] == ("field", TREE):
+        return key[2]
+    if isinstance(key, tuple) and len(key) == 2 and key[0] == "mem":
+        return key[1]
+    return None
+
+
+def _is_int(v):
+    return isinstance(v, int) and not isinstance(v, bool)
+
+
+def tree_accessor(e, size):
+    """value of losers_.begin() / data() / end() / size() in the skeleton (the tree's storage starts at address 0)"""
+    if "callee" in e and e.get("member_call") and kids(e) and match.this_field(kids(e)[0]) == TREE:
+        nm = e["callee"]["name"]
+        if nm in ("begin", "data", "cbegin"):
+            return 0
+        if nm in ("end", "cend", "size"):
+            return size
+    return None
+
+
+def object_slot(fn, obj, arrow, sk):
+    """(slot, index expression or None) of the tree node that `obj` designates: losers_[i], a reference bound to it, *p / p-> / p[i]
+    for a pointer into the tree; (None, None) for a Loser object that is a local of its own.  Undecidable if the node is not
+    known in this run of the skeleton."""
+    o = strip_casts(obj)
+    ix = None
+    if arrow:
+        v = sk.ev(obj)
+        if isinstance(v, tuple) and len(v) == 2 and v[0] == "ptr":
+            if _is_int(v[1]) and v[1] not in sk.alias:
+                return None, None                       # pointer to a local object
+            s = _key_slot(v[1])
+        else:
+            s = v
+    else:
+        ip = match.index_parts(o)
+        if ip and match.this_field(ip[0]) == TREE:
+            ix = ip[1]
+            s = sk.ev(ip[1])
+        elif ip and "*" in (strip_casts(ip[0]).get("ty") or ""):
+            a, i = sk.ev(ip[0]), sk.ev(ip[1])            # p[i] for a pointer into the tree (losers_.data() is address 0)
+            s = a + i if _is_int(a) and _is_int(i) else None
+        else:
+            key = sk.lvalue(o)
+            if _is_int(key) and ref_of(o) is not None and ref_of(o) not in sk.alias:
+                return None, None                       # a local Loser object
+            s = _key_slot(key)
+    if not _is_int(s):
+        raise dtable.Undecidable("%s: tree node of this access is not known to the evaluation: %s" % (fn.nloc(o), dtable.describe(o)))
+    return s, ix
+
+
+def inlinable(e, sk):
+    """the skeleton executes the body of this call (engine/skel.py inline())"""
+    if sk.tu is None or sk.depth >= 5 or e["k"] == "CXXOperatorCallExpr":
+        return False
+    callee = sk.tu.by_did.get(e["callee"].get("did"))
+    if callee is None or callee.body is None or callee.did == sk.fn.did or callee.kind in ("ctor", "dtor", "lambda"):
+        return False
+    args = [a for a in kids(e) if a is not None and a["k"] != "DefaultArg"]
+    if e.get("member_call"):
+        if not args or strip_casts(args[0])["k"] != "This":
+            return False
+        args = args[1:]
+    return len(args) == len(callee.params)
+
+
+_BENIGN = {"swap", "move", "forward", "min", "max", "unused", "begin", "end", "data", "size", "cbegin", "cend", "at", "addressof"}
+
+
+def opaque_tree_call(e, sk):
+    """a call whose effect on the tree the evaluation does not know: not executed by the skeleton, not a known accessor,
+    and it receives the tree, a node, a pointer / reference into the tree or the object itself"""
+    if "callee" not in e or e["k"] in ("CXXOperatorCallExpr", "CXXConstructExpr", "CXXTemporaryObjectExpr"):
+        return False
+    if e["callee"]["name"] in _BENIGN or inlinable(e, sk):
+        return False
+    for a in kids(e):
+        if a is not None and strip_casts(a) is not None and strip_casts(a)["k"] == "This":
+            return True
+    for x in ir.walk(e):
+        if match.this_field(x) == TREE:
+            return True
+        if x["k"] == "DeclRefExpr":
+            d = x["ref"]["id"]
+            if d in sk.alias and _key_slot(sk.alias[d]) is not None:
+                return True
+            v = sk.env.get(d)
+            if isinstance(v, tuple) and len(v) == 2 and v[0] == "ptr" and _key_slot(v[1]) is not None:
+                return True
+    return False
+
+
+def field_escapes(fn):
+    """a reference or pointer to a single field of a node: stores through it are not seen by the evaluation"""
+    for x in fn.nodes():
+        if x["k"] == "VarDecl" and x.get("isref") and kids(x) and is_loser_member(kids(x)[0]):
+            return "%s: reference to a node field" % fn.nloc(x)
+        if x["k"] == "UnaryOperator" and x.get("op") == "&" and kids(x) and is_loser_member(kids(x)[0]):
+            return "%s: address of a node field" % fn.nloc(x)
     return None
 
 
 # ----------------------------------------------------------------------------
-# REPLAY-TABLE / REPLAY-FIELDS / REPLAY-PATH
+# REPLAY-PATH
 # ----------------------------------------------------------------------------
 
-def check_replay(ck, fn, info, stable):
-    bind_reference_locals(fn)
-    body = fn.body
-    loops = [s for s in kids(body) if s["k"] in ("WhileStmt", "ForStmt")]
+class _PathWrong(Exception):
+    def __init__(self, sig, msg, node):
+        Exception.__init__(self, msg)
+        self.sig, self.msg, self.node = sig, msg, node
+
+
+def replay_loop(ck, fn):
+    loops = [s for s in kids(fn.body) if s is not None and s["k"] in ("WhileStmt", "ForStmt")]
     ck.require(len(loops) == 1, "%s: expected one replay loop in delete_min_insert" % fn.loc)
-    loop = loops[0]
+    return loops[0]
+
+
+def replay_path_eval(ck, fn, loop, fields):
+    """REPLAY-PATH by evaluation: the integer skeleton of delete_min_insert is run for k_ in {1, 2, 4, 8} and every winner
+    source s (the value read from losers_[0].source), once with every data-dependent branch taken and once with none taken.
+    The nodes the replay loop touches must be (k_ + s) / 2, its parent, ..., 1 in this order and nothing else, and afterwards
+    slot 0 must receive every field of a player.  Returns field -> local whose value slot 0 receives, or None after a
+    violation (a concrete (k_, s) and the nodes touched).  Undecidable if the skeleton cannot be evaluated."""
+    from engine import skel
+    stmts = kids(fn.body)
+    li = stmts.index(loop)
     init, cond, inc, lbody = match.loop_parts(loop)
-    # --- final stores: field -> challenger variable
+    loop_ids = set()
+    for part in (cond, inc, lbody):
+        if part is not None:
+            loop_ids |= {x["id"] for x in ir.walk(part)}
+    post_ids = {x["id"] for s_ in stmts[li + 1:] for x in ir.walk(s_)}
+    decl_site = {x["did"]: x["id"] for x in fn.nodes() if x["k"] == "VarDecl"}
+    escape = field_escapes(fn)
+    chal = None
+    for K in (1, 2, 4, 8):
+        for s in range(K):
+            expected = []
+            p = (K + s) // 2
+            while p >= 1:
+                expected.append(p)
+                p //= 2
+            touched = set()          # over both runs: a node counts as replayed if one of them consults or writes it
+            opaque = escape
+            for choice in (False, True):
+                st = dict(phase="pre", j=-1, final={}, opaque=escape, whole=set())
+
+                def phase(e, sk):
+                    if sk.depth == 0:
+                        i = e.get("id")
+                        st["phase"] = "loop" if i in loop_ids else "post" if i in post_ids else "pre"
+                    return st["phase"]
+
+                def touch(slot, fixed, field, e, sk, store=None):
+                    ph = phase(e, sk)
+                    if ph == "pre":
+                        return
+                    if slot == 0 and (fixed or ph == "post"):
+                        if store is not None:
+                            st["final"][field] = store
+                        return
+                    if ph == "post":
+                        return
+                    if fixed:
+                        raise dtable.Undecidable("%s: replay loop uses a node chosen outside the loop: %s" % (fn.nloc(e), dtable.describe(e)))
+                    j = st["j"]
+                    if slot in expected and expected.index(slot) >= j:
+                        st["j"] = expected.index(slot)
+                        touched.add(slot)
+                        return
+                    raise _PathWrong("path:k=%d,source=%d" % (K, s),
+                                     "with k_ = %d and the winner (slot 0) at source %d the replay loop touches node %d after the nodes %s; the path from "
+                                     "the winner's leaf to the root is %s" % (K, s, slot, [x_ for x_ in expected if x_ in touched], expected), e)
+
+                def is_fixed(obj, ix):
+                    """the node does not depend on the loop: literal slot, or an alias / pointer bound outside the loop"""
+                    if ix is not None:
+                        return const_int(ix) is not None
+                    d = ref_of(obj)
+                    return d is not None and d in decl_site and decl_site[d] not in loop_ids
+
+                def event(e, sk):
+                    k = e["k"]
+                    phase(e, sk)         # every expression of the function itself says where the evaluation is
+                    v = tree_accessor(e, 2 * K)
+                    if v is not None:
+                        return v
+                    if k == "ConditionalOperator":
+                        c = sk.ev(kids(e)[0])
+                        if c is None:            # a data value chosen by data (keyp ? *keyp : ValueType()): both arms may consult nodes
+                            sk.ev(kids(e)[1])
+                            sk.ev(kids(e)[2])
+                            return None
+                        return sk.ev(kids(e)[1] if c else kids(e)[2])
+                    bq = match.binop(e, ("=",)) if k in ("BinaryOperator", "CXXOperatorCallExpr") else None
+                    if bq:
+                        lhs = strip_casts(bq[1])
+                        if is_loser_member(lhs) and not match.this_field(lhs):
+                            slot, ix = object_slot(fn, kids(lhs)[0], lhs.get("arrow"), sk)
+                            if slot is None:
+                                return NotImplemented                  # a field of a local player object
+                            touch(slot, is_fixed(kids(lhs)[0], ix), lhs["member"], e, sk, store=bq[2])
+                            return sk.ev(bq[2])
+                        if is_loser_object(lhs):
+                            slot, ix = object_slot(fn, lhs, False, sk)
+                            if slot is None:
+                                return NotImplemented
+                            st["whole"].add(slot)
+                            touch(slot, is_fixed(lhs, ix), None, e, sk)
+                            sk.ev(bq[2])
+                            return None
+                    if is_loser_member(e) and not match.this_field(e):
+                        slot, ix = object_slot(fn, kids(e)[0], e.get("arrow"), sk)
+                        if slot is None:
+                            return NotImplemented
+                        touch(slot, is_fixed(kids(e)[0], ix), e["member"], e, sk)
+                        if e["member"] == "source" and slot == 0:
+                            return s
+                        if e["member"] == "source" and st["phase"] == "pre":
+                            return (s + 1) % K           # before the replay another slot holds another player: not the winner's source
+                        return None
+                    ip = match.index_parts(e)
+                    if ip and match.this_field(ip[0]) == TREE:
+                        slot, ix = object_slot(fn, e, False, sk)       # a whole node is read / passed on
+                        touch(slot, is_fixed(e, ix), None, e, sk)
+                        return NotImplemented
+                    if "callee" in e and e["callee"]["name"] == "swap" and not e.get("member_call") and len(kids(e)) == 2:
+                        for a in kids(e):
+                            if is_loser_object(a) and object_slot(fn, a, False, sk)[0] is not None:
+                                st["whole"].add(object_slot(fn, a, False, sk)[0])
+                            sk.ev(a)
+                        for a in kids(e):
+                            if ref_of(a) is not None:
+                                sk.store(sk.lvalue(strip_casts(a)), None)     # the local now holds data
+                        return None
+                    if opaque_tree_call(e, sk) and st["opaque"] is None:
+                        st["opaque"] = "%s: call not understood: %s" % (fn.nloc(e), dtable.describe(e)[:80])
+                    return NotImplemented
+
+                sk = skel.Skel(fn, {("field", "k_"): K}, None, event, max_iter=64)
+                sk.unknown_cond = lambda c_, sk_, choice=choice: choice
+                try:
+                    try:
+                        sk.run(stmts)
+                    except skel.Return:
+                        pass
+                except _PathWrong as w:
+                    ck.violation("REPLAY-PATH", fn.qname, w.sig, w.msg, fn.nloc(w.node))
+                    return None
+                except skel.Diverges:
+                    raise dtable.Undecidable("%s: replay loop does not end in the evaluation with k_ = %d, source %d" % (fn.nloc(loop), K, s))
+                opaque = opaque or st["opaque"]
+                missing = [f for f in fields if f not in st["final"]]
+                if missing:
+                    if st["opaque"]:
+                        raise dtable.Undecidable(st["opaque"])
+                    if 0 in st["whole"]:
+                        raise dtable.Undecidable("%s: slot 0 is written as a whole node" % fn.loc)
+                    ck.violation("REPLAY-PATH", fn.qname, "final-store:" + ",".join(missing),
+                                 "after the replay loop slot 0 does not receive the winner's field(s) %s" % missing, fn.loc)
+                    return None
+                got = {}
+                for f in fields:
+                    d = ref_of(strip_move(st["final"][f]))
+                    if d is None or d not in decl_site and not any(p_["did"] == d for p_ in fn.params):
+                        raise dtable.Undecidable("%s: slot 0 receives %s from something that is not a local: %s"
+                                                 % (fn.nloc(st["final"][f]), f, dtable.describe(st["final"][f])))
+                    got[f] = d
+                if chal is not None and got != chal:
+                    raise dtable.Undecidable("%s: slot 0 receives its fields from different locals on different paths" % fn.loc)
+                chal = got
+            if touched != set(expected):
+                if opaque:
+                    raise dtable.Undecidable(opaque)
+                ck.violation("REPLAY-PATH", fn.qname, "path-end:k=%d,source=%d" % (K, s),
+                             "with k_ = %d and the winner at source %d the replay touches the nodes %s only: node(s) %s on the path to the "
+                             "root are not replayed" % (K, s, [x_ for x_ in expected if x_ in touched], [x_ for x_ in expected if x_ not in touched]),
+                             fn.nloc(loop))
+                return None
+    return chal
+
+
+def replay_path_shape(fn, loop, fields, why):
+    """REPLAY-PATH by shape, used when the skeleton cannot be evaluated (`why`): the idiom
+         source = losers_[0].source;  pos = (k_ + source) / 2;  while (pos > 0) { ...; pos /= 2; }  losers_[0].f = f;
+    is accepted as it stands; anything else is not understood (never a violation)."""
+    body = fn.body
+    init, cond, inc, lbody = match.loop_parts(loop)
+
+    def giveup(what):
+        raise dtable.Undecidable("%s; and the replay idiom is not recognised either: %s" % (why, what))
     after = kids(body)[kids(body).index(loop) + 1:]
     chal = {}
     for s in after:
         b = match.binop(s, ("=",))
         if b:
             nf = node_field(b[1])
-            if nf and const_int(nf[0]) == 0 and ref_of(b[2]) is not None:
-                chal[nf[1]] = ref_of(b[2])
-    fields = [f["name"] for f in loser_fields(fn)]
+            if nf and const_int(nf[0]) == 0 and ref_of(strip_move(b[2])) is not None:
+                chal[nf[1]] = ref_of(strip_move(b[2]))
     missing = [f for f in fields if f not in chal]
     if missing:
-        ck.violation("REPLAY-PATH", fn.qname, "final-store:" + ",".join(missing),
-                     "after the replay loop slot 0 does not receive the winner's field(s) %s" % missing, fn.loc)
-        return
-    # --- loop variable, start, halving
+        giveup("no plain store of %s to slot 0 after the loop" % missing)
     posv = None
     for x in ir.walk(cond):
         if x["k"] == "DeclRefExpr":
             posv = x["ref"]["id"]
     if not match.positive_test(cond, posv):
-        ck.violation("REPLAY-PATH", fn.qname, "loop-cond", "replay loop does not run until the root (cond %s)"
-                     % dtable.describe(cond), fn.nloc(cond))
-        return
-    # start value
+        giveup("loop condition %s" % dtable.describe(cond))
     start = None
     for x in ir.walk(body):
         if x["k"] == "VarDecl" and x["did"] == posv and kids(x):
@@ -91,31 +454,63 @@ def check_replay(ck, fn, info, stable):
             ops = [b[1], b[2]]
             names = sorted([match.this_field(o) or ("var" if ref_of(o) == chal["source"] else "?") for o in ops])
             okstart = names == ["k_", "var"]
-    # the source variable must be initialised from slot 0
     src_init_ok = False
     for x in ir.walk(body):
         if x["k"] == "VarDecl" and x["did"] == chal["source"] and kids(x):
             nf = node_field(kids(x)[0])
             src_init_ok = bool(nf and const_int(nf[0]) == 0 and nf[1] == "source")
     if not (okstart and src_init_ok):
-        ck.violation("REPLAY-PATH", fn.qname, "start",
-                     "replay does not start at (k_ + winner source)/2 with the winner taken from slot 0 (start %s)"
-                     % (dtable.describe(start) if start else "?"), fn.loc)
-        return
-    halv = []
-    if inc is not None:
-        halv.append(inc)
-    for s in kids(lbody):
-        halv.append(s)
+        giveup("start %s" % (dtable.describe(start) if start else "?"))
+    halv = [inc] if inc is not None else []
+    halv += [s for s in kids(lbody)]
     if not any(match.halving(s, posv) for s in halv if s is not None):
-        ck.violation("REPLAY-PATH", fn.qname, "halving", "replay loop does not move to the parent node (pos/2)", fn.nloc(loop))
+        giveup("no halving step")
+    return chal
+
+
+def position_variable(fn, lbody):
+    """the local that names the current node of the replay: the index of the node accesses in the loop body that is
+    declared outside the body (a copy `cur = pos` made inside the body is not it)"""
+    inside = {x["did"]: x for x in ir.walk(lbody) if x["k"] == "VarDecl"}
+    cands = set()
+    for x in ir.walk(lbody):
+        nf = node_field(x) if x["k"] in ("MemberExpr", "DeclRefExpr") else None
+        d = ref_of(nf[0]) if nf else None
+        if d in inside and kids(inside[d]) and ref_of(kids(inside[d])[0]) is not None:
+            d = ref_of(kids(inside[d])[0])           # const Source cur = pos;
+        if d is not None and d not in inside:
+            cands.add(d)
+    if len(cands) != 1:
+        raise dtable.Undecidable("%s: the replay loop does not address its nodes through one position variable (%d candidates)"
+                                 % (fn.nloc(lbody), len(cands)))
+    return cands.pop()
+
+
+# ----------------------------------------------------------------------------
+# REPLAY-TABLE / REPLAY-FIELDS
+# ----------------------------------------------------------------------------
+
+def check_replay(ck, fn, info, stable):
+    bind_reference_locals(fn)
+    loop = replay_loop(ck, fn)
+    init, cond, inc, lbody = match.loop_parts(loop)
+    fields = [f["name"] for f in loser_fields(fn)]
+    try:
+        chal = replay_path_eval(ck, fn, loop, fields)
+        how = "evaluated for k_ in {1,2,4,8} and every source"
+    except dtable.Undecidable as ex:
+        chal = replay_path_shape(fn, loop, fields, str(ex))
+        how = "idiom"
+    if chal is None:
         return
-    ck.ok("REPLAY-PATH", fn.full, "start (k_+source)/2 from slot 0, halving to the root, all %d fields stored to slot 0" % len(fields))
+    ck.ok("REPLAY-PATH", fn.full, "start (k_+source)/2 from slot 0, halving to the root, all %d fields stored to slot 0 (%s)" % (len(fields), how))
 
     # --- decision table of the loop body
+    posv = position_variable(fn, lbody)
     keyvar = chal.get("key", chal.get("keyp"))
     supvar = chal.get("sup")
     pointer = info["pointer"]
+    chal_vars = {d: f for f, d in chal.items()}
 
     # a copy of the node index taken at the top of the iteration (`const Source cur = pos; pos /= 2; ... losers_[cur]`)
     pos_copies = set()
@@ -157,6 +552,28 @@ def check_replay(ck, fn, info, stable):
             return "node"
         return None
 
+    def moves_pos(e):
+        b = match.binop(e) if e["k"] in ("BinaryOperator", "CompoundAssignOperator") else None
+        if b and b[0].endswith("=") and b[0] not in ("==", "!=", "<=", ">=") and ref_of(b[1]) == posv:
+            return True
+        u = match.unop(e, ("++", "--")) if e["k"] == "UnaryOperator" else None
+        return bool(u and ref_of(u[1]) == posv)
+
+    def pos_test(n, run):
+        """a test of the position against 0 inside the body, before the position moves: at a node of the path pos >= 1"""
+        if any(ev[0] == "expr" and moves_pos(ev[1]) for ev in run.events):
+            return None
+        if match.positive_test(n, posv):
+            return True
+        b = match.binop(n) if strip_casts(n)["k"] == "BinaryOperator" else None
+        if b:
+            op, l, r = b
+            if ref_of(l) == posv and ((op in ("==", "<=") and const_int(r) == 0) or (op == "<" and const_int(r) == 1)):
+                return False
+            if ref_of(r) == posv and ((op in ("==", ">=") and const_int(l) == 0) or (op == ">" and const_int(l) == 1)):
+                return False
+        return None
+
     def atomize(n, run):
         pt = match.ptr_truth(n)
         neg = True
@@ -164,7 +581,7 @@ def check_replay(ck, fn, info, stable):
             bn = match.binop(n, ("!=", "=="))
             if bn:
                 for x_, y_ in ((bn[1], bn[2]), (bn[2], bn[1])):
-                    if strip_casts(y_)["k"] in ("NullPtr", "CXXNullPtrLiteralExpr", "GNUNullExpr"):
+                    if strip_casts(y_)["k"] in NULLS:
                         pt = x_
                         neg = bn[0] == "!="          # p != nullptr  <=>  not exhausted
         if pt is not None:
@@ -202,7 +619,7 @@ def check_replay(ck, fn, info, stable):
                 if rl == "chal":     # normalise to node OP chal
                     op = {"<": ">", ">": "<", "<=": ">=", ">=": "<="}[op]
                 return {"<": ("C", False), ">": ("D", False), "<=": ("D", True), ">=": ("C", True)}[op]
-        return None
+        return pos_test(n, run)
 
     frag = lbody
     leaves = dtable.explore(frag, atomize, fn)
@@ -218,54 +635,134 @@ def check_replay(ck, fn, info, stable):
             return False
         return True
 
-    rows = 0
-    viol = False
-    for v, lf in dtable.table(leaves, consistent, atoms):
-        rows += 1
-        swapped = set()
-        saved = {}          # temporary -> (node field) of a three-step exchange in progress
-        half = {}           # node field written from the challenger while a temporary holds the old node value
+    text_order = {x["id"]: i_ for i_, x in enumerate(ir.walk(lbody))}
+    sup_assigned = [text_order[x["id"]] for x in ir.walk(lbody)
+                    if x["k"] == "BinaryOperator" and x.get("op") == "=" and supvar is not None and ref_of(kids(x)[0]) == supvar]
+
+    def row_effect(lf):
+        """what the events of one row do to the node at pos and to the challenger, as symbols: the cells are the fields of the
+        node and the locals; a cell holds ('node', f) / ('chal', f) (the value the node's / the challenger's field f had at
+        the top of the iteration), ('const', c), or None (not known).  Every event is a move between cells (assignment,
+        swap, declaration of a temporary) or the step to the parent; anything else is not understood."""
+        cells = {}
+        used = {}            # local -> position (in the order of the text) of the last event that reads / writes it as a cell
+        now = [0]
+
+        def cell(e):
+            e = strip_casts(e)
+            nf_ = node_field(e)
+            if nf_:
+                if is_pos(nf_[0]):
+                    return ("node", nf_[1])
+                raise dtable.Undecidable("%s: replay loop body touches a node other than the current one: %s" % (fn.nloc(e), dtable.describe(e)))
+            d_ = ref_of(e)
+            if d_ is not None:
+                used[d_] = max(used.get(d_, -1), now[0])
+            return ("var", d_) if d_ is not None else None
+
+        def initial(c_):
+            if c_[0] == "node":
+                return c_
+            return ("chal", chal_vars[c_[1]]) if c_[1] in chal_vars else None
+
+        def relevant(c_):
+            return c_[0] == "node" or c_[1] in chal_vars
+
+        def rd(e):
+            e = strip_move(e)
+            if e is None:
+                return None
+            ci = const_int(e)
+            if ci is not None:
+                return ("const", ci)
+            if e["k"] in NULLS:
+                return ("const", 0)
+            c_ = cell(e)
+            if c_ is None:
+                return None
+            if c_ not in cells and c_[0] == "var" and e["k"] == "DeclRefExpr" and (e.get("ty") or "") == "const bool" and \
+                    isinstance(lf["run"].env.get(c_[1]), bool):
+                return ("const", int(lf["run"].env[c_[1]]))          # const bool flag = ...; decided by the row
+            return cells[c_] if c_ in cells else initial(c_)
+
         for ev in lf["events"]:
             if ev[0] == "decl":
                 v_ = ev[1]
-                if kids(v_) and kids(v_)[0] is not None:
-                    nf_ = node_field(kids(v_)[0])
-                    if nf_ and is_pos(nf_[0]):
-                        saved[v_["did"]] = nf_[1]            # T tmp = losers_[pos].f;
+                if v_.get("isref"):
+                    continue                                     # an alias: resolved where it is used
+                init_ = kids(v_)[0] if kids(v_) else None
+                cells[("var", v_["did"])] = rd(init_) if init_ is not None else None
                 continue
             if ev[0] != "expr":
                 raise dtable.Undecidable("%s: unexpected %s in replay loop body" % (fn.loc, ev[0]))
             e = ev[1]
+            now[0] = text_order.get(e.get("id"), 1 << 30)
             if match.halving(e, posv):
                 continue
-            asg = match.binop(e, ("=",))
+            asg = match.binop(e, ("=",)) if e["k"] in ("BinaryOperator", "CXXOperatorCallExpr") else None
             if asg:
-                nf_ = node_field(asg[1])
-                # losers_[pos].f = challenger_f;   (second step)
-                if nf_ and is_pos(nf_[0]) and chal.get(nf_[1]) == ref_of(asg[2]) and nf_[1] in saved.values():
-                    half[nf_[1]] = True
+                c_ = cell(asg[1])
+                val = rd(asg[2])
+                if c_ is not None and (val is not None or not relevant(c_)) and c_ != ("var", posv):
+                    cells[c_] = val
                     continue
-                # challenger_f = tmp;              (third step)
-                if ref_of(asg[1]) in chal.values() and ref_of(asg[2]) in saved:
-                    fld = saved[ref_of(asg[2])]
-                    if chal.get(fld) == ref_of(asg[1]) and half.get(fld):
-                        swapped.add(fld)
-                        continue
             c = match.call_named(e, ("swap",))
-            if c and len(kids(c)) == 2:
-                a0, a1 = kids(c)
-                nf = node_field(a0) or node_field(a1)
-                var = ref_of(a1) if node_field(a0) else ref_of(a0)
-                if nf and is_pos(nf[0]) and chal.get(nf[1]) == var:
-                    swapped.add(nf[1])
+            if c and len(kids(c)) == 2 and not c.get("member_call"):
+                ca, cb = cell(kids(c)[0]), cell(kids(c)[1])
+                va, vb = rd(kids(c)[0]), rd(kids(c)[1])
+                if ca is not None and cb is not None and ("var", posv) not in (ca, cb) and \
+                        ((va is not None and vb is not None) or not (relevant(ca) or relevant(cb))):
+                    cells[ca], cells[cb] = vb, va
                     continue
-                ck.violation("REPLAY-FIELDS", fn.qname, "swap-pair:" + dtable.describe(c),
-                             "swap does not pair a node field with the challenger variable of the same field", fn.nloc(c))
-                viol = True
-                continue
             raise dtable.Undecidable("%s: effect not understood in replay loop body: %s" % (fn.nloc(e), dtable.describe(e)))
+        # engine/dtable.py keeps assignments to bool locals to itself (no event): `sup = losers_[pos].sup;` shows up as the
+        # value of the flag at the end of the run only.  That value is the challenger's flag after the step if every such
+        # assignment in the body comes, in the (loop-free) text, after the last event that reads or writes the flag as a
+        # cell; otherwise the order of the two is not known.
+        run = lf["run"]
+        if supvar is not None and supvar in run.env and isinstance(run.env[supvar], bool):
+            if (supvar in used and any(a_ <= used[supvar] for a_ in sup_assigned)) or supvar in run.clobbered:
+                raise dtable.Undecidable("%s: the challenger's sup flag is assigned and exchanged in one step (%s)" % (fn.nloc(loop), dtable.fmt_val(lf["val"])))
+            cells[("var", supvar)] = ("const", int(run.env[supvar]))
+        out = {}
+        for f in fields:
+            n_ = cells.get(("node", f), ("node", f))
+            c_ = cells.get(("var", chal[f]), ("chal", f))
+            out[f] = (n_, c_)
+        return out
+
+    def show(sym):
+        return "%s %s" % (("the node's" if sym[0] == "node" else "the challenger's" if sym[0] == "chal" else "constant"), sym[1])
+
+    rows = 0
+    viol = False
+    for v, lf in dtable.table(leaves, consistent, atoms):
+        rows += 1
         S, L = v.get("S", False), v.get("L", False)
         A, B, C, D = v["A"], v["B"], v.get("C", False), v.get("D", False)
+        status = {}
+        for f, (n_, c_) in row_effect(lf).items():
+            if f == "sup" and "S" in v and "L" in v:
+                # a flag: what counts is its value in this row (node.sup = true; sup = false is a swap when S and not L)
+                val = {("node", "sup"): L, ("chal", "sup"): S, ("const", 0): False, ("const", 1): True}
+                if n_ not in val or c_ not in val:
+                    raise dtable.Undecidable("%s: value of the sup flags not understood in row %s" % (fn.nloc(loop), dtable.fmt_val(v)))
+                kept, swp = (val[n_] == L and val[c_] == S), (val[n_] == S and val[c_] == L)
+                status[f] = "both" if kept and swp else "kept" if kept else "swapped" if swp else "mixed"
+            elif (n_, c_) == (("node", f), ("chal", f)):
+                status[f] = "kept"
+            elif (n_, c_) == (("chal", f), ("node", f)):
+                status[f] = "swapped"
+            else:
+                status[f] = "mixed"
+            if status[f] == "mixed":
+                ck.violation("REPLAY-FIELDS", fn.qname, "mixed:" + f + "@" + dtable.fmt_val(v),
+                             "after this step the node's %s holds %s and the challenger's %s holds %s: a player is lost or duplicated (%s)"
+                             % (f, show(n_), f, show(c_), dtable.fmt_val(v)), fn.nloc(loop))
+                viol = True
+        if "mixed" in status.values():
+            continue
+        swapped = {f for f in fields if status[f] == "swapped"}
         live = (not S) and (not L)
         if stable:
             node_lt = (not L and S) or (live and (A or (not A and not B and C)))
@@ -295,9 +792,10 @@ def check_replay(ck, fn, info, stable):
             need = set(fields)
             if "sup" in need and S == L:
                 need.discard("sup")
-            if not need <= swapped:
-                ck.violation("REPLAY-FIELDS", fn.qname, "fields:" + ",".join(sorted(need - swapped)) + "@" + dtable.fmt_val(v),
-                             "swap exchanges %s but not %s: a mixed player results" % (sorted(swapped), sorted(need - swapped)), fn.nloc(loop))
+            done = {f for f in fields if status[f] in ("swapped", "both")}
+            if not need <= done:
+                ck.violation("REPLAY-FIELDS", fn.qname, "fields:" + ",".join(sorted(need - done)) + "@" + dtable.fmt_val(v),
+                             "swap exchanges %s but not %s: a mixed player results" % (sorted(swapped), sorted(need - done)), fn.nloc(loop))
                 viol = True
     ck.states += rows
     if not viol:
@@ -309,10 +807,6 @@ def check_replay(ck, fn, info, stable):
 def loser_fields(fn):
     tu = fn.tu
     # the Loser struct of the base class of this instantiation
-    for r in tu.records:
-        if r["qname"].endswith("::Loser") and any(r["full"].startswith(b.split("<")[0]) for b in [fn.full]):
-            pass
-    # choose by template arguments of the enclosing tree
     cands = [r for r in tu.records if r["qname"] == CLASSES_BASE(fn) + "::Loser"]
     if not cands:
         raise ir.AnalysisBroken("Loser record of %s not found" % fn.full)
@@ -331,6 +825,7 @@ def CLASSES_BASE(fn):
 # ----------------------------------------------------------------------------
 
 def check_init(ck, fn, guarded, pointer):
+    bind_reference_locals(fn)
     root = fn.params[0]["did"]
     # children: locals initialised by recursive calls with 2*root (+1)
     child = {}
@@ -352,24 +847,52 @@ def check_init(ck, fn, guarded, pointer):
     ck.require(sorted(child.values()) == ["left", "right"],
                "%s: could not identify the two recursive sub-tournaments" % fn.loc)
 
-    cur_run = [None]      # the decision-table run whose locals may select the winner / loser index by a ternary
+    cur_run = [None]      # the decision-table run that is being explored / evaluated
+    cur_roles = [None]    # during the evaluation of a row: the roles of the index locals at the current event
 
-    def idx_role(i, depth=0):
+    def roles_of(run, events):
+        """role (left / right / root / None) of every index local after these events of a run: a declaration and a plain
+        assignment give the local the role of the right-hand side at that point (Source w = left; if (...) w = right;)"""
+        cur = {}
+        for ev in events:
+            if ev[0] == "decl":
+                v_ = ev[1]
+                if v_["did"] not in child and not v_.get("isref"):
+                    cur[v_["did"]] = idx_role(kids(v_)[0], cur=cur) if kids(v_) and kids(v_)[0] is not None else None
+            elif ev[0] == "expr":
+                e = ev[1]
+                b_ = match.binop(e, ("=",)) if e["k"] == "BinaryOperator" else None
+                if b_ and ref_of(b_[1]) is not None and ref_of(b_[1]) not in _REF_INITS:
+                    cur[ref_of(b_[1])] = idx_role(b_[2], cur=cur)
+                sw = index_swap(e)
+                if sw:
+                    cur[sw[0]], cur[sw[1]] = idx_role(kids(e)[1], cur=cur), idx_role(kids(e)[0], cur=cur)
+        return cur
+
+    def index_swap(e):
+        """(a, b) if e is swap(a, b) of two plain locals"""
+        c = match.call_named(e, ("swap",))
+        if c is not None and not c.get("member_call") and len(kids(c)) == 2:
+            a_, b_ = ref_of(kids(c)[0]), ref_of(kids(c)[1])
+            if a_ is not None and b_ is not None and a_ not in _REF_INITS and b_ not in _REF_INITS:
+                return a_, b_
+        return None
+
+    def idx_role(i, depth=0, cur=None):
+        run = cur_run[0]
+        if cur is None:
+            cur = cur_roles[0] if cur_roles[0] is not None else (roles_of(run, run.events) if run is not None else {})
         d = ref_of(i)
+        if d is not None and d in cur:
+            return cur[d]
         if d in child:
             return child[d]
         if d == root:
             return "root"
-        run = cur_run[0]
-        if run is not None and d is not None and isinstance(run.env.get(d), dict) and depth < 4:
-            init = strip_casts(run.env[d])
-            if init["k"] == "ConditionalOperator":
-                c, a, b = kids(init)
-                try:
-                    return idx_role(a if run.truth(c) else b, depth + 1)
-                except Exception:
-                    return None
-            return idx_role(init, depth + 1)
+        i0 = strip_casts(i)
+        if run is not None and i0 is not None and i0["k"] == "ConditionalOperator" and depth < 6:
+            c, a, b = kids(i0)
+            return idx_role(a if run.truth(c) else b, depth + 1, cur)
         return None
 
     def node_role(e):
@@ -389,15 +912,31 @@ def check_init(ck, fn, guarded, pointer):
         return node_role(f[0]) if f and f[1] == "key" else None
 
     def atomize(n, run):
+        cur_run[0] = run
+        cur_roles[0] = None
         b = match.binop(n, (">=", "<", ">", "<="))
-        if b and n["k"] == "BinaryOperator" and {ref_of(b[1]), ref_of(b[2])} & {root} and \
-                (match.this_field(b[1]) == "k_" or match.this_field(b[2]) == "k_"):
-            return ("leaf", False) if b[0] in (">=",) and ref_of(b[1]) == root else None
+        if b and n["k"] == "BinaryOperator":
+            # leaf test: root >= k_ in any spelling
+            if ref_of(b[1]) == root and match.this_field(b[2]) == "k_" and b[0] in (">=", "<"):
+                return ("leaf", b[0] == "<")
+            if match.this_field(b[1]) == "k_" and ref_of(b[2]) == root and b[0] in ("<=", ">"):
+                return ("leaf", b[0] == ">")
+        be = match.binop(n, ("==", "!=")) if n["k"] == "BinaryOperator" else None
+        if be and idx_role(be[1]) in ("left", "right") and idx_role(be[2]) in ("left", "right"):
+            return (idx_role(be[1]) == idx_role(be[2])) == (be[0] == "==")        # w == left: which player an index local names
         pt = match.ptr_truth(n)
+        neg = True
+        if pt is None and pointer:
+            bn = match.binop(n, ("!=", "=="))
+            if bn:
+                for x_, y_ in ((bn[1], bn[2]), (bn[2], bn[1])):
+                    if strip_casts(y_)["k"] in NULLS:
+                        pt = x_
+                        neg = bn[0] == "!="          # p != nullptr  <=>  not exhausted
         if pt is not None:
             f = match.field_of(pt)
             if f and f[1] == "keyp" and node_role(f[0]) in ("left", "right"):
-                return ("sup_" + node_role(f[0]), True)
+                return ("sup_" + node_role(f[0]), neg)
         f = match.field_of(n)
         if f and n["k"] == "MemberExpr" and f[1] == "sup" and node_role(f[0]) in ("left", "right"):
             return ("sup_" + node_role(f[0]), False)
@@ -429,22 +968,40 @@ def check_init(ck, fn, guarded, pointer):
         rows += 1
         stored = None
         cur_run[0] = lf["run"]
-        for ev in lf["events"]:
-            if ev[0] == "decl":
-                continue
-            if ev[0] == "expr":
-                b = match.binop(ev[1], ("=",))
-                if b and node_role(b[1]) == "root" and node_role(b[2]) in ("left", "right"):
-                    stored = node_role(b[2])
+        cur_roles[0] = None
+        lf["run"].val = dict(v)          # the row fixes every atom: a ternary that selects the winner is decided by it
+        try:
+            done = []
+            for ev in lf["events"]:
+                cur_roles[0] = roles_of(lf["run"], done)
+                done.append(ev)
+                if ev[0] == "decl":
                     continue
-                if match.call_named(ev[1], ("init_winner",)):
-                    continue
-            raise dtable.Undecidable("%s: effect not understood in init_winner" % fn.loc)
-        ck.require(lf["stop"][0] == "return", "%s: init_winner path without return" % fn.loc)
-        rv = lf["stop"][1][0]
-        winner = idx_role(rv) if idx_role(rv) in ("left", "right") else None
+                if ev[0] == "expr":
+                    b = match.binop(ev[1], ("=",))
+                    if b and node_role(b[1]) == "root" and node_role(b[2]) in ("left", "right"):
+                        stored = node_role(b[2])
+                        continue
+                    if b and ev[1]["k"] == "BinaryOperator" and ref_of(b[1]) is not None and ref_of(b[1]) not in _REF_INITS \
+                            and node_index(b[1]) is None:
+                        continue             # an index local changes: roles_of() follows it
+                    if index_swap(ev[1]):
+                        continue
+                    if match.call_named(ev[1], ("init_winner",)):
+                        continue
+                raise dtable.Undecidable("%s: effect not understood in init_winner" % fn.loc)
+            cur_roles[0] = roles_of(lf["run"], done)
+            ck.require(lf["stop"][0] == "return", "%s: init_winner path without return" % fn.loc)
+            rv = lf["stop"][1][0]
+            winner = idx_role(rv) if rv is not None else None
+        except dtable._Need as nd:
+            raise dtable.Undecidable("%s: init_winner consults %s, which the decision table does not know" % (fn.loc, nd.key))
         sig = "row:" + dtable.fmt_val(v)
-        if winner is None or stored is None or winner == stored:
+        if winner not in ("left", "right"):
+            raise dtable.Undecidable("%s: value returned by init_winner not understood: %s (%s)" % (fn.loc, dtable.describe(rv), dtable.fmt_val(v)))
+        if stored is None or winner == stored:
+            # every effect of this row was understood (closed world): no store of the other player to losers_[root], or the
+            # promoted player is the one that was stored
             ck.violation("INIT-TABLE", fn.qname, sig, "game node does not store the loser and promote the other player (stored %s, promoted %s)"
                          % (stored, winner), fn.loc)
             viol = True
@@ -465,125 +1022,246 @@ def check_init(ck, fn, guarded, pointer):
         ck.ok("INIT-TABLE", fn.full, "%d consistent rows: left promoted unless right strictly smaller; other player stored" % rows)
 
 
-def is_double(e, root):
-    b = match.binop(e, ("*", "<<"))
-    if not b:
-        return False
-    if b[0] == "*":
-        return (const_int(b[1]) == 2 and ref_of(b[2]) == root) or (const_int(b[2]) == 2 and ref_of(b[1]) == root)
-    return const_int(b[2]) == 1 and ref_of(b[1]) == root
-
-
 # ----------------------------------------------------------------------------
 # MIN-SOURCE, PADDING, SWITCH-AGREE
 # ----------------------------------------------------------------------------
 
 def check_min_source(ck, fn, pointer_guarded):
-    rets = [x for x in ir.walk(fn.body) if x["k"] == "ReturnStmt"]
-    ck.require(len(rets) == 1, "%s: expected a single return in min_source" % fn.loc)
-    e = kids(rets[0])[0]
-    e = strip_casts(e)
+    """MIN-SOURCE: every path of min_source is followed (early returns, ternaries, locals, references); the value it returns
+    must be losers_[0].source, except - in the guarded pointer tree - when losers_[0].keyp is null, where it must not be"""
+    bind_reference_locals(fn)
 
-    def is_slot0_source(x):
-        nf = node_field(x)
-        return bool(nf and const_int(nf[0]) == 0 and nf[1] == "source")
-    if is_slot0_source(e):
-        if pointer_guarded:
-            ck.violation("MIN-SOURCE", fn.qname, "exhausted", "pointer tree reports a source for an exhausted winner (no keyp test)", fn.loc)
-        else:
-            ck.ok("MIN-SOURCE", fn.full, "returns losers_[0].source")
-        return
-    if e["k"] == "ConditionalOperator":
-        c, a, b = kids(e)
-        pt = match.ptr_truth(c)
-        nf = node_field(pt) if pt is not None else None
-        if nf and const_int(nf[0]) == 0 and nf[1] == "keyp" and is_slot0_source(a):
-            bb = strip_casts(b)
-            if const_int(b) is not None or (bb["k"] in ("DeclRefExpr", "MemberExpr")):
-                ck.ok("MIN-SOURCE", fn.full, "returns losers_[0].source, invalid when the winner is exhausted")
+    def atomize(n, run):
+        pt = match.ptr_truth(n)
+        neg = False
+        if pt is None:
+            bn = match.binop(n, ("!=", "=="))
+            if bn:
+                for x_, y_ in ((bn[1], bn[2]), (bn[2], bn[1])):
+                    if strip_casts(y_)["k"] in NULLS:
+                        pt = x_
+                        neg = bn[0] == "=="
+        if pt is not None:
+            nf = node_field(pt)
+            if nf and nf[1] == "keyp" and const_int(nf[0]) == 0:
+                return ("live", neg)
+        return None
+
+    def value(e, run, cur, depth=0):
+        """what an expression of type Source evaluates to on this path: ('node', slot, field) | ('const', c) | None"""
+        e = strip_casts(e)
+        if e is None or depth > 8:
+            return None
+        if e["k"] == "ConditionalOperator":
+            c, a, b = kids(e)
+            return value(a if run.truth(c) else b, run, cur, depth + 1)
+        nf = node_field(e)
+        if nf:
+            return ("node", const_int(nf[0]), nf[1])
+        d = ref_of(e)
+        if d is not None and d in cur:
+            return cur[d]
+        if const_int(e) is not None:
+            return ("const", const_int(e))
+        if e["k"] in ("DeclRefExpr", "MemberExpr") and (e["k"] == "MemberExpr" or e["ref"].get("kind") == "global"):
+            if not is_loser_member(e):
+                return ("const", dtable.describe(e))          # invalid_ and the like: not a field of a node
+        return None
+
+    def locals_of(lf, run):
+        """the locals of this path, in the order of its events: declaration and plain assignment give a local the value of
+        the right-hand side at that point; any other change of a local makes it unknown"""
+        cur = {}
+        for ev in lf["events"]:
+            if ev[0] == "decl":
+                v_ = ev[1]
+                if v_.get("isref"):
+                    continue                      # an alias: node_field() resolves it
+                cur[v_["did"]] = value(kids(v_)[0], run, cur) if kids(v_) and kids(v_)[0] is not None else None
+            elif ev[0] == "expr":
+                e = ev[1]
+                b = match.binop(e) if e["k"] in ("BinaryOperator", "CompoundAssignOperator", "CXXOperatorCallExpr") else None
+                if b and b[0].endswith("=") and b[0] not in ("==", "!=", "<=", ">=") and ref_of(b[1]) is not None:
+                    cur[ref_of(b[1])] = value(b[2], run, cur) if b[0] == "=" else None
+                u = match.unop(e, ("++", "--")) if e["k"] in ("UnaryOperator", "CXXOperatorCallExpr") else None
+                if u and ref_of(u[1]) is not None:
+                    cur[ref_of(u[1])] = None
+            else:
+                raise dtable.Undecidable("%s: %s in min_source" % (fn.loc, ev[0]))
+        return cur
+
+    leaves = dtable.explore(fn.body, atomize, fn)
+    extra = [a for a in dtable.atoms_of(leaves) if a != "live"]
+    if extra:
+        raise dtable.Undecidable("%s: min_source depends on %s" % (fn.loc, extra))
+    seen = 0
+    for lf in leaves:
+        for live in ((True, False) if pointer_guarded else (True,)):
+            if lf["val"].get("live", live) != live:
+                continue
+            if lf["stop"][0] != "return" or lf["stop"][1][0] is None:
+                raise dtable.Undecidable("%s: min_source path without a returned value" % fn.loc)
+            run = lf["run"]
+            run.val = dict(lf["val"], live=live)
+            rv = lf["stop"][1][0]
+            try:
+                got = value(rv, run, locals_of(lf, run))
+            except dtable._Need as nd:
+                raise dtable.Undecidable("%s: min_source consults %s" % (fn.loc, nd.key))
+            if got is None or (got[0] == "node" and got[1] is None):
+                raise dtable.Undecidable("%s: value returned by min_source not understood: %s" % (fn.nloc(rv), dtable.describe(rv)))
+            seen += 1
+            is_src = got == ("node", 0, "source")
+            if pointer_guarded and not live:
+                if is_src:
+                    ck.violation("MIN-SOURCE", fn.qname, "exhausted", "pointer tree reports a source for an exhausted winner (no keyp test)", fn.loc)
+                    return
+                if got[0] == "node":
+                    ck.violation("MIN-SOURCE", fn.qname, "slot0", "min_source does not report the source stored in slot 0: %s" % dtable.describe(rv), fn.loc)
+                    return
+                continue
+            if not is_src:
+                ck.violation("MIN-SOURCE", fn.qname, "slot0", "min_source does not report the source stored in slot 0: %s%s"
+                             % (dtable.describe(rv), " (live winner)" if pointer_guarded else ""), fn.loc)
                 return
-    ck.violation("MIN-SOURCE", fn.qname, "slot0", "min_source does not report the source stored in slot 0: %s" % dtable.describe(e), fn.loc)
+    ck.require(seen > 0, "%s: min_source has no path" % fn.loc)
+    if pointer_guarded:
+        ck.ok("MIN-SOURCE", fn.full, "returns losers_[0].source, invalid when the winner is exhausted")
+    else:
+        ck.ok("MIN-SOURCE", fn.full, "returns losers_[0].source")
 
 
 def check_padding(ck, fn, guarded, pointer):
-    """PADDING: the constructor is evaluated on its skeleton for (ik_, k_) = (3, 4), (5, 8), (4, 4), (1, 1): every padding leaf
-    k_ + ik_ .. 2 k_ - 1 receives the 'exhausted' / sentinel value, whatever the form of the loop (index or pointer)"""
+    """PADDING: the constructor is evaluated on its skeleton for (ik_, k_) = (3, 4), (5, 8), (4, 4), (1, 1), (6, 8): every padding
+    leaf k_ + ik_ .. 2 k_ - 1 receives the 'exhausted' / sentinel value, whatever the form of the loop (index or pointer)"""
     from engine import skel
+    fld = "sup" if (guarded and not pointer) else "keyp" if pointer else "key"
+    what = "sup = true" if fld == "sup" else "keyp = nullptr" if guarded else "keyp = &sentinel" if pointer else "key = sentinel"
+    ck.require(len(fn.params) >= (1 if guarded else 2), "%s: constructor parameters changed" % fn.loc)
+    sentinel = None if guarded else fn.params[1]["did"]
+    escape = field_escapes(fn)
+    names = [f["name"] for f in loser_fields(fn)]
+    # the parameter that initialises ik_ stands for it
+    ik_params = [ref_of(i["e"]) for i in fn.inits if i.get("field") == "ik_" and i.get("e") is not None and ref_of(i["e"]) is not None]
     bad = None
-    written_exprs = {}
     for ik, k in ((3, 4), (5, 8), (4, 4), (1, 1), (6, 8)):
-        stores = {}
+        stores = {}          # slot -> 'ok' | 'bad' | None (value not understood), of the field that marks a leaf as exhausted
+        shown = {}
+        locals_ = {}         # (local Loser object, field) -> (class, expression) of the last value assigned to it
+        st = dict(opaque=escape, whole=set())
 
-        def elem_index(e, sk):
-            """index of the tree node an lvalue designates: losers_[i] or *(pointer into losers_)"""
-            e0 = strip_casts(e)
-            ip = match.index_parts(e0)
-            if ip and match.this_field(ip[0]) == TREE:
-                return sk.ev(ip[1])
-            if e0["k"] == "UnaryOperator" and e0.get("op") == "*":
-                return sk.ev(kids(e0)[0])
-            d = ref_of(e0)
-            if d is not None and d in sk.alias and isinstance(sk.alias[d], tuple) and sk.alias[d][0] in ("mem", "elem"):
-                return sk.alias[d][-1]
+        def classify(rhs, sk):
+            r = strip_move(rhs)
+            if fld == "sup":
+                v = sk.ev(rhs)
+                return None if v is None or isinstance(v, tuple) else ("ok" if v else "bad")
+            if fld == "keyp":
+                if r is not None and (r["k"] in NULLS or const_int(r) == 0):
+                    return "ok" if guarded else "bad"
+                v = sk.ev(rhs)
+                if isinstance(v, tuple) and len(v) == 2 and v[0] == "ptr":
+                    return "bad" if guarded else ("ok" if v[1] == sentinel else "bad")
+                return None
+            r = match.strip_conv(r)
+            if r is not None and sk.lvalue(r) == sentinel:
+                return "ok"
+            if r is not None and (const_int(r) is not None or r["k"] in ("CXXScalarValueInitExpr", "ImplicitValueInitExpr") or
+                                  (r["k"] in ("CXXTemporaryObjectExpr", "CXXConstructExpr") and not kids(r))):
+                return "bad"             # a literal / value-initialised key is not the sentinel
             return None
 
+        def player_value(rhs, sk):
+            """(class, expression) of the marking field of a whole player value: a local Loser object whose fields were
+            assigned before, or Loser{...} with the fields in declaration order; None if it is something else"""
+            r = match.strip_conv(rhs)
+            if r is None:
+                return None
+            d = ref_of(r)
+            if d is not None and (d, fld) in locals_:
+                return locals_[(d, fld)]
+            if r["k"] == "InitListExpr" and len(kids(r)) == len(names) and fld in names:
+                x = kids(r)[names.index(fld)]
+                return classify(x, sk), x
+            return None
+
+        def assign_whole(slots, rhs, sk):
+            pv = player_value(rhs, sk)
+            for slot in slots:
+                if pv is None:
+                    st["whole"].add(slot)
+                    stores.pop(slot, None)
+                else:
+                    stores[slot], shown[slot] = pv
+
         def event(e, sk):
-            if "callee" in e and e.get("member_call") and kids(e) and match.this_field(kids(e)[0]) == TREE:
-                nm = e["callee"]["name"]
-                if nm in ("begin", "data", "cbegin"):
-                    return 0
-                if nm in ("end", "cend"):
-                    return 2 * k
-                if nm == "size":
-                    return 2 * k
+            v = tree_accessor(e, 2 * k)
+            if v is not None:
+                return v
             bq = match.binop(e, ("=",)) if e["k"] in ("BinaryOperator", "CXXOperatorCallExpr") else None
             if bq:
                 lhs = strip_casts(bq[1])
-                if lhs["k"] == "MemberExpr" and kids(lhs) and not match.this_field(lhs):
-                    base = kids(lhs)[0]
-                    idx = sk.ev(base) if lhs.get("arrow") else elem_index(base, sk)
-                    if isinstance(idx, int):
-                        stores.setdefault(lhs["member"], set()).add(idx)
-                        written_exprs[lhs["member"]] = bq[2]
+                if is_loser_member(lhs) and not match.this_field(lhs):
+                    slot, _ix = object_slot(fn, kids(lhs)[0], lhs.get("arrow"), sk)
+                    if slot is None:
+                        d = ref_of(kids(lhs)[0])
+                        if d is None:
+                            raise dtable.Undecidable("%s: store to a player object not understood: %s" % (fn.nloc(e), dtable.describe(e)))
+                        locals_[(d, lhs["member"])] = (classify(bq[2], sk), bq[2]) if lhs["member"] == fld else (None, bq[2])
                         return None
-                    raise dtable.Undecidable("%s: padding store not understood: %s" % (fn.nloc(e), dtable.describe(e)))
+                    if lhs["member"] == fld:
+                        stores[slot] = classify(bq[2], sk)
+                        shown[slot] = bq[2]
+                    return None
+                if is_loser_object(lhs):
+                    slot = object_slot(fn, lhs, False, sk)[0]
+                    if slot is None:
+                        return NotImplemented
+                    assign_whole([slot], bq[2], sk)
+                    return None
+            if "callee" in e and e["callee"]["name"] in ("fill", "fill_n") and not e.get("member_call") and len(kids(e)) == 3:
+                a, b = sk.ev(kids(e)[0]), sk.ev(kids(e)[1])
+                if _is_int(a) and _is_int(b):
+                    assign_whole(range(a, b if e["callee"]["name"] == "fill" else a + b), kids(e)[2], sk)
+                    return None
+            if opaque_tree_call(e, sk) and st["opaque"] is None:
+                st["opaque"] = "%s: call not understood: %s" % (fn.nloc(e), dtable.describe(e)[:80])
             return NotImplemented
         env = {("field", "ik_"): ik, ("field", "k_"): k, ("field", TREE): 0}
+        for d in ik_params:
+            env[d] = ik
         sk = skel.Skel(fn, env, None, event, max_iter=64)
         try:
             sk.run(kids(fn.body))
         except skel.Return:
             pass
-        padding = set(range(k + ik, 2 * k))
-        fld = "sup" if (guarded and not pointer) else "keyp" if pointer else "key"
-        got = stores.get(fld, set())
-        if not padding <= got and bad is None:
-            bad = (ik, k, sorted(padding - got), fld)
-    if bad:
-        ik, k, miss, fld = bad
+        except skel.Diverges:
+            raise dtable.Undecidable("%s: constructor loop does not end in the evaluation with ik_ = %d, k_ = %d" % (fn.loc, ik, k))
+        padding = list(range(k + ik, 2 * k))
+        miss = [p for p in padding if p not in stores]
+        if miss:
+            # closed world: every statement of the constructor was evaluated; a store the evaluation cannot see makes it undecidable
+            if st["opaque"]:
+                raise dtable.Undecidable(st["opaque"])
+            if st["whole"] & set(miss):
+                raise dtable.Undecidable("%s: padding leaves are written as whole nodes" % fn.loc)
+            if bad is None:
+                bad = ("range", ik, k, miss, None)
+            continue
+        unk = [p for p in padding if stores[p] is None]
+        if unk:
+            raise dtable.Undecidable("%s: value stored to the padding leaves not understood: %s" % (fn.nloc(shown[unk[0]]), dtable.describe(shown[unk[0]])))
+        wrong = [p for p in padding if stores[p] == "bad"]
+        if wrong and bad is None:
+            bad = ("value", ik, k, wrong, shown[wrong[0]])
+    if bad and bad[0] == "range":
+        _, ik, k, miss, _ = bad
         ck.violation("PADDING", fn.qname, "range", "constructor loop does not cover all padding leaves [k_+ik_, 2k_): with ik_ = %d, k_ = %d the leaves %s get no %s"
                      % (ik, k, miss, fld), fn.loc)
         return
-    written = written_exprs
-    # the padding value must be 'exhausted' / the sentinel
-    okv = False
-    if guarded and not pointer:
-        okv = "sup" in written and const_int(written["sup"]) == 1
-        what = "sup = true"
-    elif guarded and pointer:
-        v = strip_casts(written.get("keyp")) if "keyp" in written else None
-        okv = v is not None and (v["k"] == "NullPtr" or const_int(v) == 0)
-        what = "keyp = nullptr"
-    elif pointer:
-        v = strip_casts(written.get("keyp")) if "keyp" in written else None
-        okv = v is not None and v["k"] == "UnaryOperator" and v["op"] == "&" and ref_of(kids(v)[0]) == fn.params[1]["did"]
-        what = "keyp = &sentinel"
-    else:
-        v = written.get("key")
-        okv = v is not None and ref_of(v) == fn.params[1]["did"]
-        what = "key = sentinel"
-    if not okv:
-        ck.violation("PADDING", fn.qname, "value", "padding leaves are not initialised as exhausted/sentinel (%s expected)" % what, fn.loc)
+    if bad:
+        _, ik, k, wrong, rhs = bad
+        ck.violation("PADDING", fn.qname, "value", "padding leaves are not initialised as exhausted/sentinel (%s expected): with ik_ = %d, k_ = %d the leaves %s get %s = %s"
+                     % (what, ik, k, wrong, fld, dtable.describe(rhs)), fn.loc)
         return
     ck.ok("PADDING", fn.full, "every padding leaf [k_+ik_, 2k_) initialised for (ik_, k_) in {(3,4), (5,8), (4,4), (1,1), (6,8)}: %s" % what)
 
@@ -598,7 +1276,9 @@ def check_switch(ck, tu):
     exp = {"a": ("tlx::LoserTreeCopy<", "16-byte value, guarded"), "b": ("tlx::LoserTreePointer<", "24-byte value, guarded"),
            "c": ("tlx::LoserTreeCopyUnguarded<", "16-byte value, unguarded"), "d": ("tlx::LoserTreePointerUnguarded<", "24-byte value, unguarded")}
     for name, (prefix, what) in exp.items():
-        ty = got.get(name, "")
+        # the witness (verif's own file) declares a..d; the type clang resolved for each is a fact, not a shape
+        ck.require(name in got, "switch witness: local %s of a tlx::LoserTree type not found" % name)
+        ty = got[name]
         if ty.startswith(prefix):
             ck.ok("SWITCH-AGREE", "LoserTree%s switch: %s" % ("Unguarded" if name in "cd" else "", what), "-> " + ty.split("<")[0], nontrivial=False)
         else:
@@ -612,11 +1292,11 @@ def check_trees_in(ck, tu):
     n = 0
     for rec, info in CLASSES.items():
         for fn in tu.find(name="delete_min_insert", record=rec):
-            check_replay(ck, fn, info, fn.rtargs[0] == "true")
+            ck.guarded(lambda fn=fn, info=info: check_replay(ck, fn, info, fn.rtargs[0] == "true"))
             n += 1
         for fn in tu.find(record=info["base"]):
             if fn.name == "init_winner":
-                check_init(ck, fn, info["guarded"], info["pointer"])
+                ck.guarded(lambda fn=fn, info=info: check_init(ck, fn, info["guarded"], info["pointer"]))
     return n
 
 
@@ -625,8 +1305,9 @@ def run(ck):
         "Decision tables (engine A2) extracted from the instantiated replay loops and init_winner of all eight loser-tree "
         "classes, enumerated over every strict-weak-order-consistent valuation of the atoms S (challenger exhausted), L (node "
         "exhausted), A=cmp(node,chal), B=cmp(chal,node), C/D (source order) and compared with the required/forbidden/free "
-        "specification of a (stable) tournament; plus idiom rules for the replay path, slot-0 reporting, padding range and "
-        "the sizeof switch. The history-level tournament invariant itself is argued, not machine-checked.")
+        "specification of a (stable) tournament; the replay path and the padding range are decided by evaluating the integer "
+        "skeleton of the function on small trees, slot-0 reporting by following every path of min_source, the sizeof switch by "
+        "the types clang selects. The history-level tournament invariant itself is argued, not machine-checked.")
     types = ["int"] if ck.tier == "quick" else ["int", "std::string"]
     n_replay = 0
     for t in types:
@@ -637,16 +1318,17 @@ def run(ck):
             ck.require(len(fns) == 2, "%s: expected stable and unstable delete_min_insert, found %d" % (rec, len(fns)))
             for fn in fns:
                 stable = fn.rtargs[0] == "true"
-                check_replay(ck, fn, info, stable)
+                # a function that is not understood (exit 2) does not hide a violation found in another one
+                ck.guarded(lambda fn=fn, info=info, stable=stable: check_replay(ck, fn, info, stable))
                 n_replay += 1
             bases = [f for f in tu.find(record=info["base"]) if f.rtargs[:1] not in (["S16"], ["S24"])]
             for fn in bases:
                 if fn.name == "init_winner":
-                    check_init(ck, fn, info["guarded"], info["pointer"])
+                    ck.guarded(lambda fn=fn, info=info: check_init(ck, fn, info["guarded"], info["pointer"]))
                 elif fn.name == "min_source":
-                    check_min_source(ck, fn, info["guarded"] and info["pointer"])
+                    ck.guarded(lambda fn=fn, info=info: check_min_source(ck, fn, info["guarded"] and info["pointer"]))
                 elif fn.kind == "ctor":
-                    check_padding(ck, fn, info["guarded"], info["pointer"])
+                    ck.guarded(lambda fn=fn, info=info: check_padding(ck, fn, info["guarded"], info["pointer"]))
         check_switch(ck, tu)
     m = len(types)
     ck.floor("REPLAY-TABLE", 8 * m)
